@@ -27,6 +27,7 @@ CONSTANTS Mixes,        \* set of command mixes; a mix is a sequence of kinds, t
           EditSides,    \* roots an external edit may touch
           EventSides,   \* endpoints whose Poll may report an event
           MaxEdits, MaxEvents, MaxFaults,   \* budgets: external edits, poll events, injected endpoint faults
+          MaxTicks,     \* budget: timers that fire (autoReconnectInterval, rescanWaitDuration)
           Export,       \* TRUE: keep the harness-controllable events of the behaviour in s.h
           RunToBlock,   \* TRUE: the environment (harness) acts only when neither the loop nor a command can move on its own
           Mut           \* "none", or the name of a seeded mutation of the algorithm (to show that the invariants bite)
@@ -39,7 +40,10 @@ Ev(side, op, phase) == E(side, op, phase, "ok", Nil, Nil)
 Both(op, phase) == <<Ev("alpha", op, phase), Ev("beta", op, phase)>>
 CallRet(side, op) == <<Ev(side, op, "call"), Ev(side, op, "return")>>
 ShutdownBoth == CallRet("alpha", "Shutdown") \o CallRet("beta", "Shutdown")
+ShutdownOf(ends) == (IF "alpha" \in ends THEN CallRet("alpha", "Shutdown") ELSE <<>>)
+                    \o (IF "beta" \in ends THEN CallRet("beta", "Shutdown") ELSE <<>>)
 ConnectBoth == CallRet("alpha", "Connect") \o CallRet("beta", "Connect")
+ConnectEv(side, out) == <<Ev(side, "Connect", "call"), E(side, "Connect", "return", out, Nil, Nil)>>
 Mon(t, q) == [t EXCEPT !.m = MOps(@, q)]
 H(t, e) == IF Export THEN [t EXCEPT !.h = Append(@, e)] ELSE t
 
@@ -60,39 +64,58 @@ InitState(kinds, sp) ==
       loopGen |-> 1, doneClosed |-> {},
       synGen |-> 0, synOpen |-> FALSE, synClosed |-> {},
       flushQ |-> <<>>, flushHeld |-> 0, resp |-> {},
-      lpc |-> IF sp THEN "none" ELSE "connect", held |-> ~sp,
-      skipPoll |-> FALSE, retries |-> 0, missing |-> FALSE, fails |-> 0,
-      connected |-> FALSE, halt |-> "none",
+      lpc |-> IF sp THEN "none" ELSE "connect", ends |-> IF sp THEN {} ELSE Sides,
+      skipPoll |-> FALSE, retries |-> 0, missing |-> FALSE,
+      recent |-> FALSE,      \* a synchronization failure of this run() is less than autoReconnectInterval old
+      status |-> "disconnected", lerr |-> FALSE, ncyc |-> 0,   \* State.Status, LastError # "", SuccessfulCycles
+      stbad |-> FALSE,       \* some write of the three was not a StatusStep of the status machine
       sessionFile |-> TRUE, pausedDisk |-> sp, archive |-> InitArchive,
       da |-> InitTree, db |-> InitTree, anc |-> Nil, sa |-> Nil, sb |-> Nil, plan |-> Empty,
       pendT |-> {}, tres |-> [x \in Sides |-> "none"],
       lock |-> 0, cpc |-> [i \in DOMAIN kinds |-> "idle"],
       cref |-> [i \in DOMAIN kinds |-> [syn |-> 0, gen |-> 0]],
       result |-> [i \in DOMAIN kinds |-> "none"],
-      edits |-> 0, events |-> 0, faults |-> 0,
+      edits |-> 0, events |-> 0, faults |-> 0, ticks |-> 0,
       cp |-> [i \in DOMAIN kinds |-> <<>>],      \* where the loop stood, and who was in flight, when command i was called
       m |-> m2, h |-> <<>>]
 
 Init == \E kinds \in Mixes, sp \in StartPaused : s = InitState(kinds, sp)
 
+\* ------------------------------------------------------------------ the status machine: named writes
+\* one stateLock.Unlock() after setting Status / LastError / SuccessfulCycles; checked against StatusStep on the fly
+W(t, st, err, cyc) ==
+  [t EXCEPT !.status = st, !.lerr = err, !.ncyc = cyc,
+            !.stbad = @ \/ ~StepOK(Abs(t.status, t.lerr, t.ncyc), Abs(st, err, cyc))]
+St(t, st) == W(t, st, t.lerr, t.ncyc)                       \* c.state.Status = st
+StReset(t, err) == W(t, "disconnected", err, 0)             \* c.state = &State{Session, LastError: err}
+StScanRetry(t) == W(t, "scanning", TRUE, t.ncyc)            \* c.state.LastError = scan error (try again)
+StReconciling(t) == W(t, "reconciling", FALSE, t.ncyc)      \* LastError = "", Status = Reconciling (one critical section)
+StCycleDone(t) == W(t, "saving", t.lerr, t.ncyc + 1)        \* c.state.SuccessfulCycles++
+StClearError(t) == IF t.lerr THEN W(t, t.status, FALSE, t.ncyc) ELSE t   \* synchronize(): LastError = ""
+Connected(t) == t.status \in RunningStatuses                \* resume(): c.state.Status >= Status_Watching
+HaltStatus(kind) == CASE kind = "emptied" -> "halted-on-root-emptied" [] kind = "deletion" -> "halted-on-root-deletion"
+                      [] OTHER -> "halted-on-root-type-change"
+
 \* ------------------------------------------------------------------ run loop (controller.run / synchronize)
 \* the deferred function of run(): shut down endpoints still held, reset the state, close(done)
 Exit(t) ==
-  LET u == IF t.held THEN Mon(t, ShutdownBoth) ELSE t IN
-  [u EXCEPT !.lpc = "exited", !.doneClosed = @ \cup {t.loopGen}, !.connected = FALSE, !.halt = "none", !.held = FALSE]
+  LET u == StReset(Mon(t, ShutdownOf(t.ends)), FALSE) IN
+  [u EXCEPT !.lpc = "exited", !.doneClosed = @ \cup {t.loopGen}, !.ends = {}]
 
-\* synchronize returned: close(synchronizing), shut both endpoints down; then either wait for cancellation (safety halt),
-\* or reset the state and reconnect (at once after the first failure of this loop, after autoReconnectInterval otherwise)
+\* synchronize returned: close(synchronizing), shut both endpoints down; then either wait for cancellation (safety halt,
+\* the Halted* status stays), or reset the state keeping the error, and reconnect: at once if the previous failure of
+\* this run() is at least autoReconnectInterval old (lastSynchronizationFailureTime starts at zero), otherwise after
+\* waiting one interval - after which the failure that caused the wait counts as old (it was stamped before the wait)
 SyncReturn(t, halted) ==
-  LET u == Mon([t EXCEPT !.synOpen = FALSE, !.synClosed = @ \cup {t.synGen}, !.flushHeld = 0, !.held = FALSE,
+  LET u == Mon([t EXCEPT !.synOpen = FALSE, !.synClosed = @ \cup {t.synGen}, !.flushHeld = 0, !.ends = {},
                          !.pendT = {}, !.plan = Empty, !.sa = Nil, !.sb = Nil], ShutdownBoth)
   IN IF halted THEN [u EXCEPT !.lpc = "haltwait"]
-     ELSE LET v == [u EXCEPT !.connected = FALSE, !.halt = "none"] IN
-          IF t.fails = 0 THEN [v EXCEPT !.fails = 1, !.lpc = "connect"] ELSE [v EXCEPT !.lpc = "backoff"]
+     ELSE LET v == StReset(u, TRUE) IN
+          IF ~t.recent THEN [v EXCEPT !.recent = TRUE, !.lpc = "connect"] ELSE [v EXCEPT !.lpc = "backoff"]
 
 \* both Scan calls are issued: this is where a cycle starts
 ScanCall(t) ==
-  LET u == Mon([t EXCEPT !.skipPoll = FALSE, !.connected = TRUE, !.lpc = "scanning"],
+  LET u == Mon(St([t EXCEPT !.skipPoll = FALSE, !.lpc = "scanning"], "scanning"),
                <<E("alpha", "Scan", "call", "ok", t.anc, Nil), E("beta", "Scan", "call", "ok", t.anc, Nil)>>)
   IN IF Mut = "flush_early" /\ t.flushHeld # 0
      THEN [u EXCEPT !.resp = @ \cup {t.flushHeld}, !.flushHeld = 0] ELSE u
@@ -104,10 +127,11 @@ NeedsStage(cs) == \E c \in cs : HasFile(c.new) /\ ~(c.old.k = "file" /\ c.new.k 
 PlanOf(t, x) == IF x = "alpha" THEN t.plan.alpha ELSE t.plan.beta
 ResultsOf(t, x) == LET q == SetToSeq(PlanOf(t, x)) IN [j \in 1..Len(q) |-> Chg(q[j].path, Nil, q[j].new)]
 
-\* the end of one pass through synchronize's loop: fold results into the ancestor, save it, report transition errors,
-\* count the cycle, answer the flush request that triggered it
-SaveAndFinish(t) ==
-  LET okSides == {x \in Sides : t.tres[x] \in {"ok", "missing"}}
+\* the end of one pass through synchronize's loop: Status = Saving, fold results into the ancestor, save it, report
+\* transition errors, count the cycle, answer the flush request that triggered it
+SaveAndFinish(t0) ==
+  LET t == St(t0, "saving")
+      okSides == {x \in Sides : t.tres[x] \in {"ok", "missing"}}
       changes == t.plan.anc \o (IF "alpha" \in okSides THEN ResultsOf(t, "alpha") ELSE <<>>)
                             \o (IF "beta" \in okSides THEN ResultsOf(t, "beta") ELSE <<>>)
       anc2 == IF changes = <<>> THEN t.anc ELSE ApplySeq(t.anc, changes)
@@ -115,23 +139,28 @@ SaveAndFinish(t) ==
                      !.pendT = {}, !.tres = [x \in Sides |-> "none"]]
       miss == \E x \in Sides : t.tres[x] = "missing"
   IN IF \E x \in Sides : t.tres[x] = "err" THEN SyncReturn(u, FALSE)
-     ELSE [u EXCEPT !.skipPoll = miss /\ ~t.missing, !.missing = miss /\ ~t.missing,
+     ELSE [StCycleDone(u) EXCEPT !.skipPoll = miss /\ ~t.missing, !.missing = miss /\ ~t.missing,
                     !.resp = IF t.flushHeld # 0 THEN @ \cup {t.flushHeld} ELSE @, !.flushHeld = 0,
                     !.plan = Empty, !.lpc = "top"]
 
-\* after reconciliation: run on to the next blocking endpoint operation
+\* after reconciliation: Status = StagingAlpha, StagingBeta, Transitioning are written one after the other whether or
+\* not there is anything to stage; run on to the next blocking endpoint operation
 Advance(t, from) ==
-  IF from = "stageA" /\ NeedsStage(t.plan.alpha) THEN Mon([t EXCEPT !.lpc = "stagingA"], <<Ev("alpha", "Stage", "call")>>)
-  ELSE IF from \in {"stageA", "stageB"} /\ NeedsStage(t.plan.beta) THEN Mon([t EXCEPT !.lpc = "stagingB"], <<Ev("beta", "Stage", "call")>>)
-  ELSE LET ps == {x \in Sides : PlanOf(t, x) # {}} IN
-       IF ps = {} THEN SaveAndFinish(t)
-       ELSE Mon([t EXCEPT !.lpc = "transitioning", !.pendT = ps],
-                (IF "alpha" \in ps THEN <<Ev("alpha", "Transition", "call")>> ELSE <<>>)
-                \o (IF "beta" \in ps THEN <<Ev("beta", "Transition", "call")>> ELSE <<>>))
+  LET a == IF from = "stageA" THEN St(t, "staging-alpha") ELSE t IN
+  IF from = "stageA" /\ NeedsStage(t.plan.alpha) THEN Mon([a EXCEPT !.lpc = "stagingA"], <<Ev("alpha", "Stage", "call")>>)
+  ELSE LET b == IF from \in {"stageA", "stageB"} THEN St(a, "staging-beta") ELSE a IN
+       IF from \in {"stageA", "stageB"} /\ NeedsStage(t.plan.beta) THEN Mon([b EXCEPT !.lpc = "stagingB"], <<Ev("beta", "Stage", "call")>>)
+       ELSE LET c == St(b, "transitioning")
+                ps == {x \in Sides : PlanOf(t, x) # {}} IN
+            IF ps = {} THEN SaveAndFinish(c)
+            ELSE Mon([c EXCEPT !.lpc = "transitioning", !.pendT = ps],
+                     (IF "alpha" \in ps THEN <<Ev("alpha", "Transition", "call")>> ELSE <<>>)
+                     \o (IF "beta" \in ps THEN <<Ev("beta", "Transition", "call")>> ELSE <<>>))
 
-\* both scans are back without error: safety checks, reconciliation, safety checks
-Reconciled(t) ==
-  LET minE == IF Mut = "emptied_3" THEN 3 ELSE 2
+\* both scans are back without error: LastError cleared, Status = Reconciling; safety checks, reconciliation, safety checks
+Reconciled(t0) ==
+  LET t == StReconciling(t0)
+      minE == IF Mut = "emptied_3" THEN 3 ELSE 2
       pl == Reconcile(t.anc, t.sa, t.sb, Mode)
       delIn == IF Mut = "deletion_alpha_only" THEN pl.alpha ELSE pl.alpha \cup pl.beta
       kind == IF EmptiedRootN(minE, t.anc, t.sa, t.sb) THEN "emptied"
@@ -139,7 +168,7 @@ Reconciled(t) ==
               ELSE IF Mut # "no_type_check" /\ \E c \in pl.alpha \cup pl.beta : IsRootTypeChange(c) THEN "type"
               ELSE "none"
   IN IF kind # "none"
-     THEN SyncReturn([t EXCEPT !.halt = kind, !.connected = FALSE], Mut # "halt_not_sentinel")
+     THEN SyncReturn(St(t, HaltStatus(kind)), Mut # "halt_not_sentinel")
      ELSE Advance([t EXCEPT !.plan = pl], "stageA")
 
 Budget(t) == t.faults < MaxFaults
@@ -168,17 +197,37 @@ PollEvent(t) ==
   THEN {ScanCall(H([PollReturns(t) EXCEPT !.events = @ + 1], [a |-> "event", side |-> x])) : x \in EventSides}
   ELSE {}
 
+\* one dial of side x with outcome out (Status = ConnectingAlpha/Beta is written before it)
+Dial(t, x, out) ==
+  LET u == St(t, IF x = "alpha" THEN "connecting-alpha" ELSE "connecting-beta")
+      v == Mon(H(u, [a |-> "connect", side |-> x, out |-> out]), ConnectEv(x, out))
+  IN IF out = "ok" THEN [v EXCEPT !.ends = @ \cup {x}] ELSE Fault(v)
+DialOutcomes(t) == {"ok"} \cup (IF Budget(t) THEN {"err"} ELSE {})
+\* both dials in order (a side that is already connected is skipped)
+DialBoth(t) ==
+  LET A == IF "alpha" \in t.ends THEN {t} ELSE {Dial(t, "alpha", o) : o \in DialOutcomes(t)}
+  IN UNION {IF "beta" \in a.ends THEN {a} ELSE {Dial(a, "beta", o) : o \in DialOutcomes(a)} : a \in A}
+
+\* the timers of the loop fire only when the environment lets time pass (a budgeted, harness-controlled event)
+TimerSteps(t) ==
+  IF t.cancelled \/ t.ticks >= MaxTicks THEN {}
+  ELSE CASE t.lpc = "reconnwait" ->          \* time.After(autoReconnectInterval) in the connect loop
+              {H([t EXCEPT !.ticks = @ + 1, !.lpc = "connect"], [a |-> "tick", what |-> "reconnect"])}
+         [] t.lpc = "backoff" ->             \* time.After(autoReconnectInterval) after a second failure in a row
+              {H([t EXCEPT !.ticks = @ + 1, !.recent = FALSE, !.lpc = "connect"], [a |-> "tick", what |-> "backoff"])}
+         [] OTHER -> {}
+
 LoopSteps(t) ==
-  CASE t.lpc = "connect" ->        \* the connect loop of run(): cancellation is checked between the two dials
+  CASE t.lpc = "connect" ->        \* the connect loop of run(): dial what is missing; cancellation is checked between the dials
          IF t.cancelled THEN {Exit(t)}
-         ELSE {[(IF t.held THEN t ELSE Mon(t, ConnectBoth)) EXCEPT !.held = TRUE, !.lpc = "syncstart"]}
-    [] t.lpc = "syncstart" ->      \* c.synchronizing = make(chan); synchronize(): load the archive
-         LET u == [t EXCEPT !.synGen = @ + 1, !.synOpen = TRUE, !.flushHeld = 0, !.skipPoll = TRUE,
-                            !.retries = 0, !.missing = FALSE] IN
+         ELSE {[u EXCEPT !.lpc = IF u.ends = Sides THEN "syncstart" ELSE "reconnwait"] : u \in DialBoth(t)}
+    [] t.lpc = "syncstart" ->      \* c.synchronizing = make(chan); synchronize(): clear LastError, load the archive
+         LET u == StClearError([t EXCEPT !.synGen = @ + 1, !.synOpen = TRUE, !.flushHeld = 0, !.skipPoll = TRUE,
+                                         !.retries = 0, !.missing = FALSE]) IN
          IF t.archive = Gone THEN {SyncReturn(u, FALSE)} ELSE {[u EXCEPT !.anc = t.archive, !.lpc = "top"]}
     [] t.lpc = "top" ->
          IF t.skipPoll THEN {ScanCall(t)}
-         ELSE {Mon([t EXCEPT !.connected = TRUE, !.lpc = "poll"], Both("Poll", "call"))}
+         ELSE {Mon(St([t EXCEPT !.lpc = "poll"], "watching"), Both("Poll", "call"))}
     [] t.lpc = "poll" ->           \* select: endpoint event | flush request | cancellation
          PollInternal(t) \cup PollEvent(t)
     [] t.lpc = "scanning" ->       \* both scans return (the harness decides when, and with what outcome)
@@ -190,7 +239,7 @@ LoopSteps(t) ==
                        ELSE Reconciled([u EXCEPT !.sa = t.da, !.sb = t.db, !.retries = 0])
              againStep == LET u == Fault(Ret("again")) IN
                           IF t.cancelled THEN SyncReturn(u, FALSE)
-                          ELSE [u EXCEPT !.retries = 1, !.skipPoll = TRUE, !.lpc = "top"]
+                          ELSE [StScanRetry(u) EXCEPT !.retries = 1, !.skipPoll = TRUE, !.lpc = "top"]
              errStep == SyncReturn(Fault(Ret("err")), FALSE)
          IN {okStep} \cup (IF Budget(t) /\ t.retries = 0 THEN {againStep} ELSE {})
                      \cup (IF Budget(t) THEN {errStep} ELSE {})
@@ -201,8 +250,8 @@ LoopSteps(t) ==
             \cup (IF Budget(t) THEN {SyncReturn(Fault(Ret("err")), FALSE)} ELSE {})
     [] t.lpc = "transitioning" ->  \* the two transitions run in parallel and return in either order
          UNION {TransReturn(t, x) : x \in t.pendT}
-    [] t.lpc \in {"haltwait", "backoff"} ->     \* <-ctx.Done() (the back-off timer is far beyond a scenario)
-         IF t.cancelled THEN {Exit(t)} ELSE {}
+    [] t.lpc \in {"haltwait", "backoff", "reconnwait"} ->     \* <-ctx.Done() | the timer
+         (IF t.cancelled THEN {Exit(t)} ELSE {}) \cup TimerSteps(t)
     [] OTHER -> {}
 
 Loop == s' \in LoopSteps(s)
@@ -223,7 +272,7 @@ Set(t, i, pc) == [t EXCEPT !.cpc[i] = pc]
 Finish(t, i, r) == [t EXCEPT !.cpc[i] = "done", !.result[i] = r, !.m = MRet(@, i, KindOf(t, i), r)]
 Unlock(t) == [t EXCEPT !.lock = 0]
 StartLoop(t) == [t EXCEPT !.cancelSet = TRUE, !.cancelled = FALSE, !.loopGen = @ + 1, !.flushQ = <<>>,
-                          !.lpc = "connect", !.fails = 0, !.flushHeld = 0]
+                          !.lpc = "connect", !.recent = FALSE, !.flushHeld = 0]
 RestartInFlight(t) == \E j \in Ids(t) : KindOf(t, j) = "restart" /\ InFlight(t, j)
 Dead(t, i) == t.cref[i].syn \in t.synClosed \/ t.cref[i].gen \in t.doneClosed
 
@@ -249,7 +298,7 @@ CmdSteps(t, i) ==
                  ELSE {Set(t, i, "reset_archive")}
             [] k = "resume" ->                        \* controller.resume
                  IF t.disabled THEN {Unlock(Finish(t, i, "err"))}
-                 ELSE IF t.cancelSet /\ t.connected THEN {Unlock(Finish(t, i, "ok"))}
+                 ELSE IF t.cancelSet /\ Connected(t) THEN {Unlock(Finish(t, i, "ok"))}
                  ELSE IF t.cancelSet THEN {Set([t EXCEPT !.cancelled = TRUE], i, "waitdone")}
                  ELSE {Set(t, i, "resume_go")}
             [] k \in {"flushw", "flushn"} ->          \* controller.flush
@@ -271,7 +320,8 @@ CmdSteps(t, i) ==
     [] pc = "reset_archive" -> {Unlock(Finish([t EXCEPT !.archive = Nil], i, "ok"))}
     [] pc = "reset_archive_r" -> {Set([t EXCEPT !.archive = Nil], i, "resume_go")}
     [] pc = "resume_go" ->                            \* save Paused=false, dial both endpoints, go c.run(...)
-         {Unlock(Finish(StartLoop(Mon([t EXCEPT !.paused = FALSE, !.pausedDisk = FALSE, !.held = TRUE], ConnectBoth)), i, "ok"))}
+         {Unlock(Finish(StartLoop(u), i, IF u.ends = Sides THEN "ok" ELSE "err"))
+            : u \in DialBoth([t EXCEPT !.paused = FALSE, !.pausedDisk = FALSE, !.ends = {}])}
     [] pc = "send" ->                                 \* flushRequests <- request | <-synchronizing | <-done
          LET room == t.cref[i].gen = t.loopGen /\ Len(t.flushQ) < 1 IN
          IF k = "flushn"
@@ -296,7 +346,7 @@ CmdSteps(t, i) ==
          IF \E j \in Ids(t) \ {i} : InFlight(t, j) THEN {}
          ELSE LET loadPaused == IF Mut = "load_ignores_paused" THEN FALSE ELSE t.pausedDisk
                   u == [t EXCEPT !.alive = t.sessionFile, !.disabled = ~t.sessionFile, !.paused = t.pausedDisk,
-                                 !.lock = 0, !.held = FALSE, !.connected = FALSE, !.halt = "none"]
+                                 !.lock = 0, !.ends = {}, !.status = "disconnected", !.lerr = FALSE, !.ncyc = 0]
                   v == IF t.sessionFile /\ ~loadPaused THEN StartLoop(u) ELSE [u EXCEPT !.cancelSet = FALSE]
               IN {Finish(v, i, "ok")}
     [] OTHER -> {}
@@ -308,7 +358,7 @@ Command(i) == s' \in CmdSteps(s, i)
 \* call a command, edit a root, report a poll event, let a gated endpoint operation return.)
 GatePcs == {"scanning", "stagingA", "stagingB", "transitioning"}
 InternalSteps(t) ==
-  (IF t.lpc \in GatePcs THEN {} ELSE IF t.lpc = "poll" THEN PollInternal(t) ELSE LoopSteps(t))
+  (IF t.lpc \in GatePcs THEN {} ELSE IF t.lpc = "poll" THEN PollInternal(t) ELSE LoopSteps(t) \ TimerSteps(t))
   \cup UNION {IF t.cpc[i] = "idle" THEN {} ELSE CmdSteps(t, i) : i \in Ids(t)}
 EnvEnabled == ~RunToBlock \/ InternalSteps(s) = {}
 Next == IF EnvEnabled THEN Loop \/ Edit \/ \E i \in Ids(s) : Command(i)
@@ -317,11 +367,8 @@ MaxN == 4
 Spec == Init /\ [][Next]_s /\ WF_s(Loop) /\ \A i \in 1..MaxN : WF_s(i \in Ids(s) /\ Command(i))
 
 \* ------------------------------------------------------------------ properties (the monitor's, on the model's own state)
-ObsState(t) == [listed |-> t.alive, paused |-> t.paused,
-                status |-> CASE t.halt = "emptied" -> "halted-on-root-emptied"
-                             [] t.halt = "deletion" -> "halted-on-root-deletion"
-                             [] t.halt = "type" -> "halted-on-root-type-change"
-                             [] OTHER -> IF t.connected THEN "running" ELSE "disconnected"]
+ObsState(t) == [listed |-> t.alive, paused |-> t.paused, status |-> t.status,
+                lastError |-> IF t.lerr THEN "error" ELSE "", cycles |-> t.ncyc]
 ObsDisk(t) == [sessionFile |-> t.sessionFile, paused |-> t.pausedDisk, archive |-> t.archive]
 NoRestart == ~RestartInFlight(s)
 
@@ -331,6 +378,10 @@ InvPauseSurvives == NoRestart => (C29_PauseSurvivesRestart(s.m, ObsState(s)) /\ 
 InvTerminatedGone == C29_TerminatedGoneDisk(s.m, ObsDisk(s)) /\ (NoRestart => C29_TerminatedGoneList(s.m, ObsState(s)))
 InvReset == C29_ResetArchive(s.m, ObsDisk(s)) /\ C29_ResetKeepsRoots(s.m, Roots(s))
 InvC11 == C11_NoOpsWhileHalted(s.m) /\ C11_Status(s.m, ObsState(s)) /\ C11_Roots(s.m, Roots(s))
+\* every write of Status / LastError / SuccessfulCycles is a step of the status machine, and while the loop is inside an
+\* endpoint operation the three are what the observer expects from the journal alone (the conformance relation
+\* the trace module counts on real sessions)
+InvStatusMachine == ~s.stbad /\ StatusAgrees(s.m, ObsState(s))
 \* the model's own view of C11: whenever transitions are in flight the plan propagates none of the three
 InvNeverPropagated ==
   s.lpc \in {"stagingA", "stagingB", "transitioning"} =>
